@@ -185,7 +185,9 @@ def _shipped():
 
 @st.composite
 def _random_set(draw):
-    ep = draw(st.sampled_from(CATALOGUE_EPOCHS + [(2005, 6, 15)]))
+    ep = draw(st.one_of(st.sampled_from(CATALOGUE_EPOCHS + [(2005, 6, 15), (2000, 2, 29), (1999, 12, 31), (2024, 2, 29)]),
+                        st.integers(datetime.date(1985, 1, 1).toordinal(), datetime.date(2030, 12, 31).toordinal()).map(
+                            lambda o: datetime.date.fromordinal(o).timetuple()[:3])))
     p = draw(TR.random_p7())
     p[4:] = [v * 0.5 for v in p[4:]]                     # |r| < 30 arcsec
     rates = [draw(S.floats(-0.05, 0.05)) for _ in range(3)] + [draw(S.floats(-0.01, 0.01))] + \
